@@ -92,10 +92,10 @@ func (c *Conn) handleAuthenticate(tag string, dec *imapwire.Decoder) error {
 			return err
 		}
 
-		encodedResp, isPrefix, err := c.br.ReadLine()
+		encodedResp, tooLong, err := c.readLine()
 		if err != nil {
 			return err
-		} else if isPrefix {
+		} else if tooLong {
 			return fmt.Errorf("SASL response too long")
 		} else if string(encodedResp) == "*" {
 			return &imap.Error{
